@@ -162,9 +162,10 @@ pub const MAX_COMMIT_QUEUE_BYTES: usize = 64;
 pub const MAX_LOG_QUEUE_BYTES: i64 = 512;
 #[cfg(pdb_verif_scaled)]
 pub const MAX_LOG_FILES: usize = 1;
-/// Scaled build only: the smallest index has 2^4 pages instead of 2^16 (one page still holds 64 entries, so the
-/// 65th key of a page still makes the index grow); a full scan of an index or ref-count table is 16 page reads.
-#[cfg(pdb_verif_scaled)]
+/// Own guard `pdb_verif_small_index`: the smallest index has 2^4 pages instead of 2^16 (one page still holds 64
+/// entries, so the 65th key of a page still makes the index grow); a full scan of an index or ref-count table is 16
+/// page reads. File names and table ids in log records depend on it: builds with and without it do not share data.
+#[cfg(pdb_verif_small_index)]
 pub const MIN_INDEX_BITS: u8 = 4;
 
 pub fn constants() -> Constants {
